@@ -6,6 +6,7 @@ RULE = ("process histories (Program constructions over built-in and generated pr
         "or duplicate error compared with the Coq model and with the fresh-process answer for the same libs. "
         "non-trivial = distinct history with >= 2 events in which two library names are related by string prefix "
         "or the outcome is the duplicate error")
+RULE += (' Also: same-named subclasses of registered commands, a library whose import fails, is repaired and is requested again, a Program constructed with working_dir before a request for a library only that folder holds.')
 TRUSTED = ["class identity = (module, command name) (the metaclass's first-wins rule is then invisible); "
            "Python's import system imports exactly the requested module and its sub-modules plus their own imports"]
 ASSUMPTIONS = ["dynamic class definitions in a module that belongs to a requested library are outside the quantifier "
